@@ -1,9 +1,9 @@
 """C02 — soil mineral nitrogen mass balance closes on every simulated day (DESIGN.md §6 C02)."""
 import os, re
 from core import Corr, Fail
-from props import waterlib, nitrolib
+from props import waterlib, nitrolib, daynlib
 
-PROP_FILES = ["Prop_C02"]
+PROP_FILES = ["Prop_C02", "Prop_C02b"]
 RULE = ("synthetic nmove/mineral/Denitr states (3-20 layers; all four flux sign patterns at every interface incl. upward flow "
         "at the drain layer; drain depth anywhere; leaching depth inside and at the profile bottom; first and later "
         "sub-steps; near-zero contents that engage the clamps) and transitions replayed from traced real runs with the "
@@ -34,7 +34,7 @@ def n_trace(ctx):
     if "r" in _tr:
         return _tr["r"]
     ex = waterlib.prepare_examples(ctx)
-    nl, endy = (8, 1995) if ctx.thorough else (3, 1983)
+    nl, endy = (8, 1995) if ctx.thorough else (4, 1982)
     lf = os.path.join(ctx.work, "ntrace_lines.txt")
     with open(lf, "w") as f:
         f.write("\n".join(l + " LeachingDepth=20" for l in waterlib.trace_lines(ctx, nl, endy)) + "\n")
@@ -85,6 +85,8 @@ def correspond(ctx):
     ctx.extra["max_abs_n_residual"] = max([abs(d["res"]) for d in days] or [0.0])
     ctx.extra["traced_days_clamp_free"] = sum(1 for d in days if d["clean"])
     c.samples = [{k: (v if not isinstance(v, list) else v[:4]) for k, v in x["in"].items()} for x in allc[:2] if x["k"] == "nmove"]
+    # whole-day tie: run.go's N glue + Nitro bookkeeping + mineral + k transport sub-steps + denitrification composed (DayNitroModel)
+    daynlib.correspond_day(ctx, c)
     return c
 
 
@@ -103,4 +105,5 @@ def oracle(ctx, search):
     for l in orc + torc:
         if l.startswith(ORACLE_KEYS):
             fails.append(Fail(key=re.sub(r"(residual|delta|expected|before|after|counted|min-preclamp)=\S+", "", l)[:100].strip(), what=l))
+    fails += daynlib.oracle_day(ctx, daynlib.C02_KEYS if ctx.id == "C02" else daynlib.C07_KEYS) or []
     return fails
